@@ -344,10 +344,13 @@ def qr_householder_sign(ck, prog):
         if f and f["path"].endswith("div_element_mut") and t["args"][-1]["k"] in ("move", "copy") and not t["args"][-1]["p"]["pr"]:
             l = t["args"][-1]["p"]["l"]
             # through a temp copy
-            ds = b.defs.get(l, [])
-            if len(ds) == 1 and ds[0].kind == "assign" and ds[0].data["r"]["k"] == "use" and ds[0].data["r"]["o"]["k"] in ("move", "copy") \
-                    and not ds[0].data["r"]["o"]["p"]["pr"]:
-                l = ds[0].data["r"]["o"]["p"]["l"]
+            seen = set()
+            while l not in seen:                                  # through temporaries and single-assignment aliases (`let divisor = nrm;`)
+                seen.add(l)
+                ds = b.defs.get(l, [])
+                if len(ds) == 1 and ds[0].kind == "assign" and ds[0].data["r"]["k"] == "use" and ds[0].data["r"]["o"]["k"] in ("move", "copy") \
+                        and not ds[0].data["r"]["o"]["p"]["pr"]:
+                    l = ds[0].data["r"]["o"]["p"]["l"]
             divs.add(l)
     if not divs:
         ck.note(f"{inst}: no div_element_mut scaling in qr_mut: no instance")
@@ -366,7 +369,7 @@ def qr_householder_sign(ck, prog):
             dst = t["d"]["l"]
             flows = dst in divs or any(d.kind == "assign" and d.data["r"]["k"] == "use" and d.data["r"]["o"]["k"] in ("move", "copy")
                                        and d.data["r"]["o"]["p"]["l"] == dst for l in divs for d in b.defs.get(l, []))
-            if src in divs and flows:
+            if flows:
                 # innermost comparison one of whose edges dominates the negation
                 ctl = [c for c in cx.cmps if b.dominates(c.true_bb, bb) != b.dominates(c.false_bb, bb)]
                 ctl = [c for c in ctl if not any(o is not c and b.dominates(c.bb, o.bb) for o in ctl)]
